@@ -561,7 +561,9 @@ func (s *AbsfsNFS) CreateWithContext(ctx context.Context, dir *NFSNode, name str
 		return nil, fmt.Errorf("create: failed to sanitize path: %w", err)
 	}
 
-	f, err := s.fs.Create(path)
+	// O_EXCL: never truncate or reuse an existing object; the caller decides
+	// what an already existing name means for its create mode.
+	f, err := s.fs.OpenFile(path, os.O_RDWR|os.O_CREATE|os.O_EXCL, 0666)
 	if err != nil {
 		return nil, fmt.Errorf("create: failed to create %s: %w", path, err)
 	}
